@@ -216,6 +216,29 @@ static std::vector<Plan> c18_scenarios(bool thorough) {
         p.ops.push_back(mkop(OP_QLT, 10, {1, -1, 0, 25, 0x11, 0, 0}));
         out.push_back(p);
     }
+    // the link's MTU shrinks in place between two Emits; the second one over-declares (every getter subset, MTU included, fails on it)
+    for (int s = 15; s < (thorough ? 17 : 16); s++) {
+        Plan p;
+        p.prop = "C18"; p.family = s; p.seed = 1800 + s; p.t0 = 7000 + 1000 * s; p.mac_seed = 0xC18 + s; p.memfill = s % 2 ? 0xFE : 0xA5; p.memfill_seed = 99 + s;
+        p.latency = 1; p.twin = true; p.tail_ms = 600;
+        NodeCfg n; n.glue = s == 16 ? GLUE_DARWIN : GLUE_BARE; n.mtu = s == 16 ? 4096 : 9000; n.attr_seed = 4400 + s * 7; n.wifi = false; n.rxfill = 0;
+        p.nodes.push_back(n);
+        Attr a = make_attr(n.attr_seed, n.wifi);
+        a.mac.a[5] = (uint8_t)(a.mac.a[5] & 0xF0);
+        auto emit = [&](int seq, size_t carried, int64_t declared) { Op e = mkop(OP_EMIT, 20, {0, -1, 0, seq, declared, 0}); Bytes d; for (size_t k = 0; k < carried; k++) { d.push_back((uint8_t)(k & 1)); d.push_back(0); d.insert(d.end(), a.mac.a, a.mac.a + 6); d.insert(d.end(), {2, 3, 4, 5, 6, (uint8_t)k}); } e.blob = d; return e; };
+        p.ops.push_back(mkop(OP_DISCOVER, 5, {0, -1, 0, 0x1001 + s, 3, 0, 0, 0}));
+        p.ops.push_back(emit(5, 3, -1));
+        p.ops.push_back(mkop(OP_QLT, 10, {0, -1, 0, 6, 0x0E, 0, 0}));
+        p.ops.push_back(mkop(OP_ATTR, 10, {0, 0, 0x40000, 576}));
+        p.ops.push_back(emit(7, 2, 0xFFFF));
+        p.ops.push_back(mkop(OP_QLT, 10, {0, -1, 0, 8, 0x0E, 600, 0}));
+        p.ops.push_back(emit(9, 2, -1));
+        p.ops.push_back(mkop(OP_RESET, 30, {0, -1, 0, 0, 0, 0}));
+        p.ops.push_back(mkop(OP_DISCOVER, 20, {1, -1, 0, 0x5005, 21, 0, 0, 0}));
+        p.ops.push_back(mkop(OP_QLT, 10, {1, -1, 0, 23, 0x0E, 0, 0}));
+        p.ops.push_back(emit(25, 2, -1));
+        out.push_back(p);
+    }
     // constructor scenario
     Plan c;
     c.prop = "C18"; c.family = 100; c.seed = 1899; c.t0 = 9000; c.api_world = false; c.tail_ms = 10;
@@ -519,9 +542,12 @@ static std::string plan_sample(const Plan &p) {
     return s + "]";
 }
 
+static std::string g_abi; // --abi: recorded in every plan this process writes
 static Plan plan_for(const std::string &prop, uint64_t vseed, uint64_t index, const std::string &tier) {
-    if (prop == "C18") { build_c18_variants(tier); return g_c18_variants[index % g_c18_variants.size()]; }
-    return generate_plan_indexed(prop, vseed, index, tier);
+    if (prop == "C18") { build_c18_variants(tier); Plan p = g_c18_variants[index % g_c18_variants.size()]; p.abi = g_abi; return p; }
+    Plan p = generate_plan_indexed(prop, vseed, index, tier);
+    p.abi = g_abi;
+    return p;
 }
 
 static void worker_main(int wid, int nworkers, const std::string &prop, uint64_t vseed, const std::string &tier, uint64_t start, uint64_t max_runs, double deadline, const std::string &resfile) {
@@ -532,12 +558,17 @@ static void worker_main(int wid, int nworkers, const std::string &prop, uint64_t
     FILE *dumpf = nullptr; // determinism self-test: per-index log hashes
     if (const char *d = getenv("VERIF_DUMP_HASHES")) dumpf = fopen((std::string(d) + "." + std::to_string(wid)).c_str(), "w");
     for (; idx < max_runs; idx += (uint64_t)nworkers) {
-        if ((idx / nworkers) % 16 == 0 && now_s() > deadline) break;
+        if (now_s() > deadline) break;
         if (g_shm->stop) break;
         g_shm->cur[wid] = idx + 1;
         Plan p = plan_for(prop, vseed, idx, tier);
+        double t_run = now_s();
         RunResult r = run_plan(p, false);
         a.runs++;
+        if (now_s() - t_run > 3.0) { // budget hygiene: single runs that eat seconds are logged (index, seconds, family, ops, deliveries)
+            a.st.named["slow_runs_over_3s"]++;
+            if (FILE *sf = fopen((g_tmpdir + "/../slow-runs.log").c_str(), "a")) { fprintf(sf, "%s idx=%llu secs=%.1f family=%d ops=%zu deliveries=%llu tier=%s\n", prop.c_str(), (unsigned long long)idx, now_s() - t_run, p.family, p.ops.size(), (unsigned long long)r.st.deliveries, tier.c_str()); fclose(sf); }
+        }
         if (dumpf) fprintf(dumpf, "%llu %llu\n", (unsigned long long)idx, (unsigned long long)r.hash);
         merge_stats(a.st, r.st);
         a.families[p.family]++;
@@ -610,6 +641,7 @@ int main(int argc, char **argv) {
         else if (a == "--known") known_path = nxt();
         else if (a == "--tmp") tmpdir = nxt();
         else if (a == "--verbose") verbose = true;
+        else if (a == "--abi") g_abi = nxt();
         else if (a == "--no-minimise") no_minimise = true;
         else if (prop.empty() && a[0] != '-') prop = a;
     }
@@ -794,8 +826,11 @@ int main(int argc, char **argv) {
         int tests = 0;
         Plan m = no_minimise ? p : minimise(p, prop, cls, tests);
         ChildOut r1 = run_in_child(m, prop), r2 = run_in_child(m, prop);
-        if (r1.cls != cls || r2.cls != cls || (!r1.crashed && r1.hash != r2.hash) || match_known(known, prop, r1.cls, r1.detail)) { printf("HARNESS: minimised plan for %s does not reproduce deterministically\n", cls.c_str()); harness_fault++; continue; }
-        m.expect_class = cls; m.expect_hash = r1.crashed ? 0 : r1.hash;
+        // a run whose violation IS "the transmitted bytes are not a function of the inputs" has no stable event log (the bytes are in it):
+        // the gate demands the class in every re-execution, not the hash
+        bool unstable_by_nature = cls == "C02:uninitialised-memory-on-wire";
+        if (r1.cls != cls || r2.cls != cls || (!r1.crashed && !unstable_by_nature && r1.hash != r2.hash) || match_known(known, prop, r1.cls, r1.detail)) { printf("HARNESS: minimised plan for %s does not reproduce deterministically\n", cls.c_str()); harness_fault++; continue; }
+        m.expect_class = cls; m.expect_hash = (r1.crashed || unstable_by_nature) ? 0 : r1.hash;
         char name[256];
         snprintf(name, sizeof name, "%s/%s/%llu-%016llx.plan", replay_dir.c_str(), prop.c_str(), (unsigned long long)idx, (unsigned long long)(r1.hash ^ std::hash<std::string>()(cls)));
         { std::ofstream f(name); f << "# " << cls << " :: " << r1.detail << "\n# found at run index " << idx << " VERIF_SEED " << vseed << ", minimised from " << p.ops.size() << " to " << m.ops.size() << " ops in " << tests << " re-executions\n" << plan_to_text(m); }
